@@ -27,30 +27,52 @@ theorem C02_monotone (cx : Ctx) (n i : Nat) (a : AMode) (m : RMode) (env : Env) 
   (run_good cx n i a m env st r h).le
 
 /-- The look-ahead rules `at` and `not_at` leave the cursor where it was, whatever the requested
-    rewind mode and whatever the result (success, failure, or an exception passing through). -/
-theorem C02_lookahead (cx : Ctx) (n i c : Nat) (a : AMode) (m : RMode) (env : Env) (st : St) (r : Ret) (nd : Node)
-    (hn : cx.g[i]? = some nd) (hk : nd.kind = .atR c ∨ nd.kind = .notAt c)
-    (h : run cx n i a m env st = some r) : r.st.cur = st.cur := by
-  cases n with
-  | zero => simp [run] at h
-  | succ n =>
-    simp only [run, nodeCall, hn] at h
-    have hbody : ∀ mm r0, body cx (fun i a m env st => run cx n i a m env st) n nd.kind a mm env st = some r0 →
-        r0.st.cur = st.cur := by
-      intro mm r0 h0
-      rcases hk with hk | hk <;> rw [hk] at h0 <;>
-        simp only [body, Option.map_eq_some_iff] at h0 <;> obtain ⟨r1, _, rfl⟩ := h0
+    rewind mode, whatever the result (success, failure, or an exception passing through), and
+    whatever action class (including the `match()`-wrapping ones) is attached. -/
+theorem C02_lookahead (cx : Ctx) (i c : Nat) (nd : Node)
+    (hn : cx.g[i]? = some nd) (hk : nd.kind = .atR c ∨ nd.kind = .notAt c) :
+    ∀ (n : Nat) (a : AMode) (m : RMode) (env : Env) (st : St) (r : Ret),
+      run cx n i a m env st = some r → r.st.cur = st.cur := by
+  intro n
+  induction n with
+  | zero => intro a m env st r h; simp [run] at h
+  | succ n ih =>
+    intro a m env st r h
+    simp only [run, nodeCall, hn, Option.map_eq_some_iff] at h
+    obtain ⟨r0, h0, rfl⟩ := h
+    simp only [bracket_st]
+    have hbody : ∀ aa mm st' r1, body cx (fun i a m env st => run cx n i a m env st) n nd.kind aa mm env st' = some r1 →
+        r1.st.cur = st'.cur := by
+      intro aa mm st' r1 h1
+      rcases hk with hk | hk <;> rw [hk] at h1 <;>
+        simp only [body, Option.map_eq_some_iff] at h1 <;> obtain ⟨r2, _, rfl⟩ := h1
       · rfl
       · simp only [alwaysRestore]; split <;> rfl
-    split at h
-    · simp only [Option.map_eq_some_iff] at h
-      obtain ⟨r0, h0, rfl⟩ := h
-      simpa using hbody _ _ h0
-    · simp only [Option.map_eq_some_iff] at h
-      obtain ⟨r0, h0, rfl⟩ := h
-      have := hbody _ _ h0
-      simp only [bracket_st]
-      exact guardRestore_cur_eq (by simpa using this)
+    have hcore : ∀ aa st' r1, nodeCore cx (fun i a m env st => run cx n i a m env st) n i nd aa m env st' = some r1 →
+        r1.st.cur = st'.cur := by
+      intro aa st' r1 h1
+      unfold nodeCore at h1
+      split at h1
+      · exact hbody _ _ _ _ h1
+      · simp only [Option.map_eq_some_iff] at h1
+        obtain ⟨r2, h2, rfl⟩ := h1
+        exact guardRestore_cur_eq (by simpa using hbody _ _ _ _ h2)
+    split at h0
+    · exact hcore _ _ _ h0
+    · exact ih _ _ _ _ _ h0
+    · exact hcore _ _ _ h0
+    · exact hcore _ _ _ h0
+    · unfold limitDepthCall at h0
+      split at h0
+      · simp only [Option.some.injEq] at h0; subst h0; rfl
+      · simp only [Option.map_eq_some_iff] at h0
+        obtain ⟨r1, h1, rfl⟩ := h0
+        simpa using hcore _ _ _ h1
+    · unfold limitBytesCall at h0
+      simp only [Option.map_eq_some_iff] at h0
+      obtain ⟨r1, h1, rfl⟩ := h0
+      have := hcore _ _ _ h1
+      split <;> simpa using this
 
 /-- Every atom's one-argument `match( in )` peeks before it bumps: a failing atom leaves the
     whole cursor unchanged (and no atom ever moves it backwards). -/
@@ -63,14 +85,15 @@ theorem C02_atoms (cx : Ctx) (a : Atom) (st : St) :
     returning `bool`), a local failure restores the cursor for *every* requested rewind mode —
     in particular when a `bool` action vetoes a successful match. -/
 theorem C02_action_guard (cx : Ctx) (n i : Nat) (a : AMode) (m : RMode) (env : Env) (st : St) (r : Ret) (nd : Node)
-    (hn : cx.g[i]? = some nd) (hc : nd.ctl = true) (hg : useGuard a (cx.actOf env i nd) = true)
+    (hn : cx.g[i]? = some nd) (hc : nd.ctl = true) (hw : (cx.actOf env i nd).wrap = .none)
+    (hg : useGuard a (cx.actOf env i nd) = true)
     (h : run cx n i a m env st = some r) (hf : r.res = .fail) : r.st.cur = st.cur := by
   cases n with
   | zero => simp [run] at h
   | succ n =>
-    simp only [run, nodeCall, hn, hc, Bool.not_true, Bool.false_eq_true, if_false, hg, if_true,
+    simp only [run, nodeCall, hn, hw, nodeCore, hc, Bool.not_true, Bool.false_eq_true, if_false, hg, if_true,
       Option.map_eq_some_iff] at h
-    obtain ⟨r0, _, rfl⟩ := h
+    obtain ⟨r0, ⟨r1, _, rfl⟩, rfl⟩ := h
     simp only [bracket_res, guardRestore_res] at hf
     simp only [bracket_st]
     exact guardRestore_req_cur (by simp [hf])
